@@ -20,6 +20,23 @@ def _k2m1(seed):
     return Driver("k2m1", [two_regime_series(9, 1, 5)], W=2, K=2, beta=3.0, m=1, biased=True)
 
 
+@driver("k11")
+def _k11(seed):
+    # eleven clusters (two-digit cluster ids): eleven well separated levels with different spreads, 4 points each
+    rng = np.random.default_rng(111)
+    parts = [np.round(rng.normal(6.0 * k, 0.2 + 0.07 * k, size=(4, 1)), 3) for k in range(11)]
+    return Driver("k11", [np.concatenate(parts)], W=1, K=11, beta=0.5, m=2, biased=True)
+
+
+@driver("k2triu")
+def _k2triu(seed):
+    # a sparsity weight of which only the upper triangle is filled (the solver reads the upper triangle)
+    s = two_regime_series(9, 2, 7)
+    lam = np.triu(np.array([[0.1, 0.3, 0.05, 0.2], [0.3, 0.2, 0.15, 0.05],
+                            [0.05, 0.15, 0.1, 0.3], [0.2, 0.05, 0.3, 0.2]]))
+    return Driver("k2triu", [s], W=2, K=2, lam=lam, beta=2.0, m=2)
+
+
 @driver("k2nptrue")
 def _k2nptrue(seed):
     # the estimator flag as a NumPy boolean (what a comparison or an element of a boolean array gives)
